@@ -162,6 +162,8 @@ class Task(NamedUIDObject):
             if dynamic:
                 self.append_z3_assertion(resource_busy_end <= self._end)
                 self.append_z3_assertion(resource_busy_start >= self._start)
+                # the resource is busy for a span that cannot be negative
+                self.append_z3_assertion(resource_busy_start <= resource_busy_end)
             else:
                 if early_out > 0:
                     self.append_z3_assertion(resource_busy_end == self._end - early_out)
